@@ -40,6 +40,8 @@ def shards(tier, seed):
                 out.append(dict(id="C19/%s/D%d/R%d" % (kind, D, R), kind=kind, D=D, R=R, cost=D * R, facts=dict(kind=kind, D=D, R=R)))
     if tier == "quick":
         out.append(dict(id="C19/GaussianPDF/D4/R4.big", kind="GaussianPDF", D=4, R=4, big=True, cost=20, facts=dict(kind="GaussianPDF", D=4, R=4)))
+        for kind in ("GaussianPDF", "GaussianDiagPDF"):
+            out.append(dict(id="C19/%s/D5/R5.large" % kind, kind=kind, D=5, R=5, big=5, cost=30, facts=dict(kind=kind, D=5, R=5)))
     return out
 
 
@@ -77,7 +79,7 @@ def run_shard(shard, ctx):
         # near-singular / dense mixed-sign members are part of the catalogue: make sure one is used
         conds = [np.linalg.cond(A) for A in al.spd_catalogue(3)]
         vis = sorted(set(vis + [int(np.argmax(conds))]))
-    for n in (BOUNDS[tier]["n"] if not shard.get("big") else [4]):
+    for n in (BOUNDS[tier]["n"] if not shard.get("big") else ([4] if shard["big"] is True else [shard["big"]])):
         for vi in (vis if not shard.get("big") else [0, 100]):
             tag = ("c19", kind, D, R)
             Sig = objs.spd_batch(D, R, vi, seed, tag, diag=diag)
